@@ -38,9 +38,11 @@ def prelude_text(repr_, shape, unsigned=None):
         hi = (1 << (bits - 1)) - 1 if signed else (1 << bits) - 1
     sub = {
         "@PTR_BYTES@": str(PTR_BYTES),
-        "@R@": repr_, "@U@": unsigned or comp, "@RMIN@": "(%d)" % lo, "@RMAX@": str(hi), "@MOD@": "(RMAX - RMIN + 1)",
+        "@R@": repr_, "@U@": unsigned or comp, "@RMIN@": "(%d)" % lo, "@RMAX@": str(hi), "@MOD@": "(%dint + 1)" % (hi - lo),
         "@SHAPE_AXIOM@": "runs().len() == 1" if shape == "gapless" else "runs().len() >= 2",
         "@SIGNED@": "true" if signed else "false",
+        "@CAST_ENSURES@": ("forall|w: R| (#[trigger] (#[verifier::truncate] (w as U))) as int == if w >= 0 { w as int } else { w as int + %d + 1 }," % (2 * hi + 1)) if signed else "true,",
+        "@CAST_PROOF@": ("assert(forall|w: R| (#[trigger] (#[verifier::truncate] (w as U))) as int == if w >= 0 { w as int } else { w as int + %d + 1 }) by (bit_vector);" % (2 * hi + 1)) if signed else "",
     }
     for k, v in sub.items():
         t = t.replace(k, v)
